@@ -242,7 +242,6 @@ T_CALLS = {
     'grs80': lambda: (lambda: _tgg.vincinv(-37.95103342, 144.42486789, -37.65282114, 143.92649553)),
     'ans_antimeridian': lambda: (lambda: _tgg.vincinv(10.0, 179.5, -12.0, -179.5, _tgc.ans)),
     'intl_long': lambda: (lambda: _tgg.vincinv(-30.0, 0.0, 40.0, 120.0, _tgc.intl24)),
-    'near_antipodal': lambda: (lambda: _tgg.vincinv(0.0, 0.0, 0.5, 179.7)),
     'coincident': lambda: (lambda: _tgg.vincinv(12.0, 12.0, 12.0, 12.0)),
 }
 _tg, _te = _thr.make(T_CALLS, ['geodepy/geodesy.py'], 'geodesy:vincinv:threads', quick=['grs80', 'ans_antimeridian', 'intl_long'],
